@@ -687,6 +687,59 @@ func ruleC18Uninit(cx *Ctx) {
 						}
 					}
 				}
+				// ... or a helper that leaves the flag set (stores true unless it already reads true, never false)
+				if c := calleeOf(in); c != nil && c.Pkg != nil && c.Pkg.Pkg.Path() == modPath && len(origin(c).Blocks) > 0 {
+					setsTrue, setsOther := false, false
+					withClosures(origin(c), func(f *ssa.Function) {
+						allInstrs(f, func(x ssa.Instruction) {
+							if atomicOp(x, flagF, "Store") {
+								if a := callArgs(x); len(a) == 1 {
+									if b, isB := constBool(a[0]); isB && b {
+										setsTrue = true
+										return
+									}
+								}
+								setsOther = true
+							}
+						})
+					})
+					if setsTrue && !setsOther {
+						okAll := true
+						// every path of the helper either stores true or saw the flag already set
+						for _, r := range origin(c).Blocks {
+							if len(r.Instrs) == 0 {
+								continue
+							}
+							if _, isRet := r.Instrs[len(r.Instrs)-1].(*ssa.Return); !isRet {
+								continue
+							}
+							sat := false
+							for _, x := range r.Instrs {
+								if atomicOp(x, flagF, "Store") {
+									sat = true
+								}
+							}
+							for _, g := range guardsAt(r) {
+								if cond, neg := stripNot(g.Cond); atomicOp(asInstr(cond), flagF, "Load") && g.Truth != neg {
+									sat = true
+								}
+							}
+							for _, pr := range r.Preds {
+								for _, x := range pr.Instrs {
+									if atomicOp(x, flagF, "Store") {
+										sat = true
+									}
+								}
+							}
+							if !sat {
+								okAll = false
+							}
+						}
+						if okAll {
+							flagOn = true
+						}
+					}
+				}
 			}
 			switch {
 			case large == 1:
